@@ -6,6 +6,7 @@ mod c03;
 mod c05;
 mod c06;
 mod c13;
+mod c14;
 mod genr;
 mod rng;
 mod util;
@@ -28,6 +29,7 @@ fn main() {
         "c05" => c05::run(&args[2..]),
         "c03" => c03::run(&args[2..]),
         "c13" => c13::run(&args[2..]),
+        "c14" => c14::run(&args[2..]),
         other => {
             eprintln!("unknown property {other}");
             2
